@@ -16,6 +16,7 @@ PID = "C10"
 INVS = ["FreshDir", "DenseIdx", "Chronological", "LastIsNewest"]
 PROPS = ["EarlierUntouched"]
 START = 12 * 3600 + 59 * 60 + 55   # 12:59:55 on day 0
+DATALESS = ("fast_forward_paths", "fast_forward_by_line")
 
 
 def _cfg(methods, maxlen, emit=False, view=False, moves=("same", "plus1", "to13", "midnight")):
@@ -106,6 +107,9 @@ def _replay(hist):
                             if not idxs:
                                 continue
                             admissible = sorted(_dirname(done[j - 1]) for j in idxs)
+                            # a run made by a fast-forward method collects no lines: it has a run directory like any other (and is the
+                            # most recent run while it is), but no data.csv a reference could be resolved to
+                            with_data = sorted(_dirname(done[j - 1]) for j in idxs if hist[j - 1]["m"] not in DATALESS)
                             ref = f"${gg}.results.{_prefix(p, step['run']['t'])}:{which}.m1"
                             # whoever asks gets the same answer: the instance that just ran, the long-lived instance that ran
                             # earlier (if any), and an instance that never runs anything
@@ -115,10 +119,12 @@ def _replay(hist):
                                 try:
                                     path = asker.file_manager.get_named_file(ref)
                                 except Exception as e:
+                                    if len(with_data) < len(admissible) and "does not point to a data file" in str(e):
+                                        continue      # the most recent (earliest) run has no data, and the reference says so
                                     return {"kind": "rundirs", "step": i, "ops": ops, "what": f"reference {ref} raised (asked by {who})", "raised": f"{type(e).__name__}: {e}", "admissible": admissible}
                                 parts = path.split(os.sep)
                                 got = parts[-3]
-                                if got not in admissible or parts[-4] != gg or parts[-1] != "data.csv" or parts[-2] != "m1":
+                                if got not in with_data or parts[-4] != gg or parts[-1] != "data.csv" or parts[-2] != "m1":
                                     return {"kind": "rundirs", "step": i, "ops": ops, "what": f"reference {ref} asked by {who}", "admissible": admissible, "got": path}
     finally:
         clock.uninstall()
@@ -182,6 +188,12 @@ def main(tier):
     r4 = require_ok(run_tlc("RunDirs", "_gen_RD_focus.cfg", timeout=900, keep_stdout=False), "RunDirs focus")
     rep.add_tlc(f"RunDirs all histories of length {fl} with moves {{same second, +1s}} (collision suffixes)", r4)
     hists += list(r4.records)
+    # runs that leave no data among runs that do: ':last' / ':first' still mean the most recent / earliest RUN
+    with open(os.path.join(spec, "_gen_RD_nodata.cfg"), "w") as f:
+        f.write(_cfg(["collect_paths", "fast_forward_paths"] + ([] if tier == "quick" else ["fast_forward_by_line"]), 3, emit=True, moves=("plus1",)))
+    r5 = require_ok(run_tlc("RunDirs", "_gen_RD_nodata.cfg", timeout=900, keep_stdout=False), "RunDirs nodata")
+    rep.add_tlc("RunDirs all histories of length 3 of collecting and fast-forward runs, one second apart (references over runs without data)", r5)
+    hists += list(r5.records)
     with open(os.path.join(spec, "_gen_RD_sim.cfg"), "w") as f:
         f.write(_cfg(["collect_paths", "collect_by_line", "next_paths", "next_by_line"], sim[1], emit=True))
     r3 = require_ok(run_tlc("RunDirs", "_gen_RD_sim.cfg", timeout=600, keep_stdout=False, workers=1,
@@ -207,7 +219,7 @@ def main(tier):
                 f"spec; all histories of length <= {emit_len} (two representative methods) and random histories of length {sim[1]} are replayed "
                 "with a fake clock. every history is non-trivial (>= 1 run).")
     rep.assumptions = ["TLC; csvpath.csvpaths.datetime replaced by a fake clock", "same-second ties of :last/:first left open",
-                       "data-producing methods only where a reference must resolve to data.csv"]
+                       "a reference whose most recent (earliest) run was a fast-forward run may answer 'does not point to a data file'; it may not answer with another run"]
     return rep.finish()
 
 
